@@ -16,7 +16,9 @@
    The domain [lf_domain c msg attrs] (a boolean, evaluated by Corr/C05.v on every generated
    record, all of which satisfy it):
    - every key, at every depth, is a legal logfmt key [legal_key]: non-empty, every byte
-     > 0x20, not 0x7f, not '=', not a quote;
+     > 0x20, not 0x7f, not '=', not a quote, and the key is none of the reserved names time,
+     logger, level, msg, caller (an attribute named time that holds a time value is printed by
+     a rule of its own in serializeAttrs, which the property excludes and the model omits);
    - text that the Go standard library produced and that logg prints WITHOUT escaping:
        the record's timestamp e_ts, VTime t and the elements of VTimes (Time.AppendFormat;
          printed between two quote bytes): [qtext_ok] = bytes 0x20..0x7e except quote and backslash;
